@@ -204,7 +204,11 @@ def check_public(out: Outcome, rng):
     A = int(rng.integers(2, 4))
     s, i = hist.random_histories(rng, T, A, 4, inner=False)
     traj, sites, kw = hist.realise(s, i)
-    # jitter so that the attempt frequency is defined
+    # every other system: the site structure carries the (metrically different) cell of a reference crystal; distances
+    # between sites are minimum-image distances of the SIMULATION cell
+    ref_cell = rng.random() < 0.5
+    if ref_cell:
+        sites = gem.make_sites(gem.reference_cell(rng, traj.get_lattice().matrix), sites.frac_coords, labels=sites.labels)
     try:
         tr = traj.transitions_between_sites(sites, **kw)
         jumps = tr.jumps()
@@ -213,6 +217,12 @@ def check_public(out: Outcome, rng):
     out.evaluations += 1
     try:
         md = float(rng.choice([1.0, 4.5, 6.0]))
+        if ref_cell:
+            # a cut-off 2 % above or below one of the site separations: decided differently by a cell that is 3-6 % off
+            dd = traj.get_lattice().get_all_distances(sites.frac_coords, sites.frac_coords)
+            dd = np.unique(np.round(dd[dd > 0.3], 6))
+            if len(dd):
+                md = float(rng.choice(dd)) * float(rng.choice([0.98, 1.02]))
         coll = jumps.collective(max_dist=md)
     except Exception as e:  # noqa: BLE001
         out.count('public-collective-raised:' + type(e).__name__)
@@ -261,7 +271,7 @@ def run(tier: str, seed: int, scale: int) -> Outcome:
     if tier != 'quick':
         exhaustive_small(out)
         out.extra['exhaustive_bound'] = 'all 3-row tables (3 atoms) with start in 0..3, stop in start+1..5, window 0 and 1'
-    for _ in range((6 if tier == 'quick' else 60) * scale):
+    for _ in range((30 if tier == "quick" else 200) * scale):
         check_public(out, rng)
     return out
 
